@@ -24,6 +24,7 @@ from concurrent.futures import ProcessPoolExecutor
 from bounded._api import Bounded, REPLAY_HEADER
 from bounded import c02_ext
 from bounded import c02_gen
+from bounded import c02_fail
 
 HARNESS_SRC = r'''
 import warnings, logging, inspect, functools
@@ -371,7 +372,7 @@ def run_chunk(args):
 def run_xchunk(chunk):
     """chunk: [(module tag, (family, case))] -> [(module tag, (family, case, result))]"""
     out = []
-    for tag, mod in (("ext", c02_ext), ("gen", c02_gen)):
+    for tag, mod in (("ext", c02_ext), ("gen", c02_gen), ("fail", c02_fail)):
         part = [t for m, t in chunk if m == tag]
         if part:
             out.extend((tag, item) for item in mod.run_chunk(part))
@@ -407,7 +408,7 @@ def run(tier, seed):
              "watcher on every object and on class A); non-trivial when the history succeeds and the attempt "
              "raises; oracle: complete snapshot before == after, and probe traces (9 later sets on every "
              "source, class and target) equal to those of the control world without the attempt"
-             + c02_ext.RULE + c02_gen.RULE,
+             + c02_ext.RULE + c02_gen.RULE + c02_fail.RULE,
         bound="histories of length <= %d over %d operations (plain set, link by Parameter / bind / rx / update / "
               "constructor, source update, user watcher, link in which the target is itself a source, class-level "
               "set on declaring class and subclass, class watcher) = %d histories x %d rejected assignments (histories of length 3: the %d core attempts) "
@@ -416,7 +417,7 @@ def run(tier, seed):
               "on routes instance / update / class / class-update"
               % (2 if tier == "quick" else 3, len([o for o in HISTORY_OPS if tier != "quick" or o[0] in QUICK_OPS]),
                  len(hs), len(ATTEMPTS), len(CORE_ATTEMPTS)) + "; " + c02_ext.bound_text(tier)
-              + "; " + c02_gen.bound_text(tier))
+              + "; " + c02_gen.bound_text(tier) + "; " + c02_fail.bound_text(tier))
     nchunks = 64
     chunks = [(list(range(i, len(hs), nchunks)), tier) for i in range(nchunks)]
     chunks = [c for c in chunks if c[0]]
@@ -464,17 +465,19 @@ def run(tier, seed):
         B._seen[(clause, witness)]["count"] = count
     # ---- further families (bounded/c02_ext.py): Selector subscribers, rejected calls inside batches;
     # ---- (bounded/c02_gen.py): shared generators, never-evaluated references.  One pool for all of them.
-    xtasks = [("ext", t) for t in c02_ext.tasks(tier, seed)] + [("gen", t) for t in c02_gen.tasks(tier, seed)]
-    nx = 48
+    xtasks = [("ext", t) for t in c02_ext.tasks(tier, seed)] + [("gen", t) for t in c02_gen.tasks(tier, seed)] + \
+             [("fail", t) for t in c02_fail.tasks(tier, seed)]
+    nx = 48 if tier == "quick" else 192
     xchunks = [xtasks[i::nx] for i in range(nx)]
-    xresults, gresults = [], []
+    xresults, gresults, fresults = [], [], []
     for out in _pmap(run_xchunk, [c for c in xchunks if c]):
         for mod, item in out:
-            (xresults if mod == "ext" else gresults).append(item)
+            (xresults if mod == "ext" else gresults if mod == "gen" else fresults).append(item)
     xresults.sort(key=lambda x: c02_ext.key_of(x[0], x[1]))
     gresults.sort(key=lambda x: c02_gen.key_of(x[0], x[1]))
-    xstats = {"SEL": [0, 0], "NB": [0, 0], "GEN": [0, 0], "RXN": [0, 0]}
-    for mod, results in ((c02_ext, xresults), (c02_gen, gresults)):
+    fresults.sort(key=lambda x: c02_fail.key_of(x[0], x[1]))
+    xstats = {"SEL": [0, 0], "NB": [0, 0], "GEN": [0, 0], "RXN": [0, 0], "FW": [0, 0]}
+    for mod, results in ((c02_ext, xresults), (c02_gen, gresults), (c02_fail, fresults)):
         for fam, c, r in results:
             k = mod.key_of(fam, c)
             xstats[fam][0] += 1
@@ -498,6 +501,9 @@ def run(tier, seed):
     B.note("family GEN: %d cases, %d checked (the rest: the class accepts the callable / the generator does not fit the "
            "holder); family RXN: %d cases, %d checked (the rest: the current value of the reference is valid for that target)" % (
                xstats["GEN"][0], xstats["GEN"][1], xstats["RXN"][0], xstats["RXN"][1]))
+    nfailed = sum(1 for _, _, r in fresults if r["status"] == "checked" and "Boom" in (r.get("failed") or ()))
+    B.note("family FW: %d cases, %d checked (attempt raised), in %d of them at least one operation of the history failed "
+           "inside a watcher" % (xstats["FW"][0], xstats["FW"][1], nfailed))
     B.note("cases: %(checked)d checked (history succeeded, attempt raised), %(not-rejected)d attempt not rejected "
            "after that history, %(history-failed)d history itself failed (both counted as trivial)" % stats)
     B.note("multi-key update in which an earlier key succeeds is not treated as one rejected assignment "
